@@ -6,7 +6,8 @@ from __future__ import annotations
 import math
 
 SPLITTER_VALUES = [
-    "u1", "user-42", " padded ", "user-0 ", "\tx", "x\n", "", "0", "1", "é", "josé", "日本語", "\U0001f600", "a b", "it's", 'q"q', "\\", "\x00",
+    "u1", "user-42", " padded ", "user-0 ", "\tx", "x\n", "", "0", "1", "123e4567-e89b-12d3-a456-426614174000", "00000000-0000-0000-0000-00000000002a",
+    "018f3c4e-9a7b-7def-8123-456789abcdef", "user@example.com", "2024-05-01T12:00:00Z", "0x1F", "1e3", "+7", "007", "é", "josé", "日本語", "\U0001f600", "a b", "it's", 'q"q', "\\", "\x00",
     0, 1, -1, 42, 2**31, 2**63, 10**30, -(10**20), 1.0, 0.5, -0.0, 1e22, 1e-7, float("inf"), float("nan"),
     True, False, None,
 ]
